@@ -5,8 +5,8 @@ C17 — the untyped JSON form of a stack item (pkg/vm/stackitem/json.go:52-309: 
 StdLib.jsonSerialize / jsonDeserialize use on chain. `toJSONU` writes the text as the code does (Go's string escaping
 with HTML characters escaped, `+` as +, integers within ±MaxAllowedInteger, MaxSize bound). `fromJSONU` reads PLAIN
 texts only: printable ASCII without escape sequences, numbers that are plain integer literals of at most 2^53 in
-magnitude (exact under both precisions; anything else goes through big.ParseFloat, which is not modelled) and map keys
-of at most MaxKeySize bytes (a longer key makes Map.Add panic): the item-count rule (`maxCount`: every value and every
+magnitude (exact under both precisions; anything else goes through big.ParseFloat, which is not modelled);
+a map key over MaxKeySize bytes is an error (fix d98706e): the item-count rule (`maxCount`: every value and every
 map key costs one) and the nesting limit MaxJSONDepth. Tied to the real code; no theorem uses this file.
 Core Lean only.
 -/
@@ -129,20 +129,20 @@ def convUList : Nat → List JVal → Nat → Nat → UOut (List Item × Nat)
       | none => none
       | some none => some none
       | some (some (vs, c')) => some (some (v :: vs, c'))
-/-- `decodeMap`: a repeated property is an error; the key costs one; a key over MaxKeySize is outside the model. -/
+/-- `decodeMap` (json.go:283-315, after fix d98706e): a key over MaxKeySize is an error (`IsValidMapKey`, checked
+first; before the fix `Map.Add` panicked on it); a repeated property is an error; the key costs one. -/
 def convUPairs : Nat → List (Bytes × JVal) → List (Item × Item) → Nat → Nat → UOut (List (Item × Item) × Nat)
   | 0, _, _, _, _ => none
   | _, [], acc, cnt, _ => some (some (acc, cnt))
   | fuel+1, (k, x) :: rest, acc, cnt, depth =>
-    if acc.any (fun p => Item.keyCode p.1 == some (WireLimits.itemByteArrayT, k)) then some none
+    if k.length > WireLimits.stackMaxKeySize then some none
+    else if acc.any (fun p => Item.keyCode p.1 == some (WireLimits.itemByteArrayT, k)) then some none
     else if cnt = 0 then some none
     else
       match convU fuel x (cnt - 1) depth with
       | none => none
       | some none => some none
-      | some (some (v, c)) =>
-        if k.length > WireLimits.stackMaxKeySize then none
-        else convUPairs fuel rest (acc ++ [(.byteArray k, v)]) c depth
+      | some (some (v, c)) => convUPairs fuel rest (acc ++ [(.byteArray k, v)]) c depth
 end
 
 def fromJSONU (maxCount : Nat) (b : Bytes) : UOut Item :=
